@@ -155,7 +155,7 @@ func build(c *conCase, seq int) (l *live, herr error) {
 
 // query asks the real code everything the record holds.
 func query(c *conCase, stage string, fc *cmap.File, ft *cmap.ToUnicodeFile, codec *charcode.Codec, errText string) (rec record) {
-	rec = record{Kind: c.Kind, Stage: stage, Err: errText, CSR: c.CSR, Layers: c.Layers, File: c.File, Opt: c.Opt, Origin: c.Origin}
+	rec = record{Kind: c.Kind, Stage: stage, Err: errText, CSR: c.CSR, Layers: c.Layers, File: c.File, Opt: c.Opt, Origin: c.Origin, ProbeCodes: c.Probes}
 	defer rec.normalise()
 	if errText != "" {
 		return rec
